@@ -193,6 +193,12 @@ constexpr bool contains(const size_t (&ind)[N], int num){
 }
 
 
+// how many times does num occur in ind
+template<size_t N>
+constexpr size_t count_index(const size_t (&ind)[N], size_t num, size_t i=0){
+    return (i==N) ? 0 : ((ind[i]==num ? 1 : 0) + count_index(ind,num,i+1));
+}
+
 template<class Dims>
 struct put_dims_in_Index;
 
@@ -214,7 +220,10 @@ struct is_vectorisable<Index<Idx0...>,Index<Idx1...>,Tensor<T,Rest...>> {
     static constexpr size_t fastest_changing_index = get_value<sizeof...(Rest),Rest...>::value;
     static constexpr size_t idx[sizeof...(Idx0)] = {Idx0...};
     static constexpr bool does_2nd_tensor_disappear = ((int)no_of_unique<Idx0...,Idx1...>::value == (int)sizeof...(Idx0) - (int)sizeof...(Idx1));
-    static constexpr bool last_index_contracted = contains(idx,get_value<sizeof...(Idx1),Idx1...>::value);
+    static constexpr size_t idx1[sizeof...(Idx1)] = {Idx1...};
+    // the last index of the second tensor is summed over if it also occurs in the first tensor or once more in the second
+    static constexpr bool last_index_contracted = contains(idx,get_value<sizeof...(Idx1),Idx1...>::value) ||
+            count_index(idx1,get_value<sizeof...(Idx1),Idx1...>::value) > 1;
     static constexpr bool is_reducible = does_2nd_tensor_disappear && last_index_contracted;
     static constexpr bool value = (!last_index_contracted) && (fastest_changing_index % _vec_size<simd_abi::sse>::value==0);
     static constexpr bool sse_vectorisability = (!last_index_contracted) &&
@@ -233,7 +242,10 @@ struct is_vectorisable<Index<Idx0...>,Index<Idx1...>,Tensor<float,Rest...>> {
     static constexpr size_t fastest_changing_index = get_value<sizeof...(Rest),Rest...>::value;
     static constexpr size_t idx[sizeof...(Idx0)] = {Idx0...};
     static constexpr bool does_2nd_tensor_disappear = ((int)no_of_unique<Idx0...,Idx1...>::value == (int)sizeof...(Idx0) - (int)sizeof...(Idx1));
-    static constexpr bool last_index_contracted = contains(idx,get_value<sizeof...(Idx1),Idx1...>::value);
+    static constexpr size_t idx1[sizeof...(Idx1)] = {Idx1...};
+    // the last index of the second tensor is summed over if it also occurs in the first tensor or once more in the second
+    static constexpr bool last_index_contracted = contains(idx,get_value<sizeof...(Idx1),Idx1...>::value) ||
+            count_index(idx1,get_value<sizeof...(Idx1),Idx1...>::value) > 1;
     static constexpr bool is_reducible = does_2nd_tensor_disappear && last_index_contracted;
     static constexpr bool value = (!last_index_contracted) && (fastest_changing_index % 4==0);
     static constexpr bool sse_vectorisability = (!last_index_contracted) && (fastest_changing_index % 4==0 && fastest_changing_index % 8!=0);
@@ -249,7 +261,10 @@ struct is_vectorisable<Index<Idx0...>,Index<Idx1...>,Tensor<double,Rest...>> {
     static constexpr size_t fastest_changing_index = get_value<sizeof...(Rest),Rest...>::value;
     static constexpr size_t idx[sizeof...(Idx0)] = {Idx0...};
     static constexpr bool does_2nd_tensor_disappear = ((int)no_of_unique<Idx0...,Idx1...>::value == (int)sizeof...(Idx0) - (int)sizeof...(Idx1));
-    static constexpr bool last_index_contracted = contains(idx,get_value<sizeof...(Idx1),Idx1...>::value);
+    static constexpr size_t idx1[sizeof...(Idx1)] = {Idx1...};
+    // the last index of the second tensor is summed over if it also occurs in the first tensor or once more in the second
+    static constexpr bool last_index_contracted = contains(idx,get_value<sizeof...(Idx1),Idx1...>::value) ||
+            count_index(idx1,get_value<sizeof...(Idx1),Idx1...>::value) > 1;
     static constexpr bool is_reducible = does_2nd_tensor_disappear && last_index_contracted;
     static constexpr bool value = (!last_index_contracted) && (fastest_changing_index % 2==0);
     static constexpr bool sse_vectorisability = (!last_index_contracted) && (fastest_changing_index % 2==0 && fastest_changing_index % 4!=0);
